@@ -9,7 +9,9 @@ unphased projection, raw dosage ndarray), and compared with the per-taxon defini
 evaluated in exact arithmetic (mc/ref/linmod.py).  Metamorphic layers on top: all
 taxon permutations, all 2-way marker partitions, and short histories that re-assign the
 coefficients of one model object (setters / in-place) and demand the behaviour of a fresh model.  Second part: every small training
-set through rrBLUPModel0.fit_numpy with the four clauses of the property.
+set through rrBLUPModel0.fit_numpy with the four clauses of the property.  Third part: a
+population-size sweep (every n up to 260 / 2100) of the allele statistics, whose
+fixed / polymorphic flags and boundary frequencies must be exact for every size.
 """
 from __future__ import annotations
 import hashlib, importlib, itertools, math
@@ -39,6 +41,9 @@ RULE = ("one evaluation = one (model class, effects, intercept rows, ploidy, gen
         "genotype rotating through all of them (bounds.model_blocks lists every block). Training sets: ALL Z in "
         "{0,1,2}^(n x p) x ALL y in a 3-letter alphabet for the listed (n,p) (one representative per multiset of "
         "records where marked 'sorted'; strides as listed in bounds.fit_blocks). "
+        "Population-size sweep: for EVERY n = 1..260 (thorough 2100) x ploidy 1/2/4 x 4 classes x phased/unphased the "
+        "fa*/da*/na* statistics on loci {fixed-1, fixed-0, one copy short, half} x effects {pos, neg, 0} against integer "
+        "counting; flags exact, frequencies exactly 0/1 iff absent/fixed. "
         "states = distinct configurations (digest of class, ploidy, genotype, effects, intercept); transitions = "
         "method applications; traces = configurations on which every oracle agreed; non-trivial = configuration "
         "with positive additive genetic variance or a heterozygous locus with non-zero dominance effect, or a "
@@ -290,6 +295,10 @@ def shards(tier, seed):
         per = max(1, int((260 if tier == "quick" else 1200) / (ny * t)))
         for z0 in range(0, nz, per):
             out.append(("fit", blk, z0, min(nz, z0 + per)))
+    step = 52 if tier == "quick" else 100
+    for P in (1, 2, 4):
+        for n0 in range(1, sweep_nmax(tier) + 1, step):
+            out.append(("sweep", P, n0, min(sweep_nmax(tier) + 1, n0 + step)))
     out.append(("introspect",))
     return out
 
@@ -976,6 +985,99 @@ def _attribute_mutation(ctx, case, cov):
 
 
 # ----------------------------------------------------------------------------
+# population-size sweep of the allele statistics (exactness at the boundaries 0 and 1 for EVERY n)
+SWEEP_METHODS = (("facount", "i"), ("fafreq", "f"), ("faavail", "b"), ("fafixed", "b"), ("fapoly", "b"),
+                 ("dacount", "i"), ("dafreq", "f"), ("daavail", "b"), ("dafixed", "b"), ("dapoly", "b"),
+                 ("nafixed", "b"), ("napoly", "b"))
+SWEEP_TRAITS = ["s0", "s1", "s2"]
+
+
+def sweep_nmax(tier):
+    return 2100 if tier == "thorough" else 260
+
+
+def sweep_dosage(P, n):
+    """n x 4 dosage matrix: locus 0 fixed for allele 1, locus 1 fixed for allele 0, locus 2 one copy short of fixation,
+    locus 3 half of the copies (floor)."""
+    half = (P * n) // 2
+    A = []
+    for i in range(n):
+        A.append([P, 0, P - 1 if i == 0 else P, min(P, max(0, half - P * i))])
+    return A
+
+
+def run_sweep(ctx, case):
+    code, P, n, s = case["cls"], case["P"], case["n"], case["seed"] % 3
+    al = EFF[s]
+    U = [[al[3], al[0], al[1]] for _ in range(4)]       # every locus: favourable in trait 0, deleterious in 1, neutral in 2
+    A = sweep_dosage(P, n)
+    exp = R.allele_stats(A, U, P)                       # integer counting, exact fractions
+    Uf = fl(U).reshape(4, 3)
+    kw = dict(beta=numpy.zeros((1, 3)), trait=numpy.array(SWEEP_TRAITS, dtype=object))
+    if code == "L":
+        mod = lib("L")(u=Uf, **kw)
+    elif code == "D":
+        mod = lib("D")(u_misc=None, u_a=Uf, u_d=None, **kw)
+    else:
+        mod = lib(code)(u_misc=None, u_a=Uf, **kw)
+    An = numpy.array(A, dtype="int8").reshape(n, 4)
+    ph = numpy.zeros((P, n, 4), dtype="int8")
+    for p in range(P):
+        ph[p] = (An > p)
+    forms = {"ph": lib("PG")(mat=ph), "un": lib("G")(mat=An.copy(), ploidy=P)}
+    cov = method_sets(code)[0]
+    ctx.evaluations += 1
+    ctx.state(hashlib.blake2b(repr(("sweep", code, P, n)).encode(), digest_size=8).digest())
+    ok_all, obs = True, []
+    for name, kind in SWEEP_METHODS:
+        if name not in cov:
+            continue
+        sig = f"{owner(code, name)}.{name}:size-sweep"
+        E = exp[name]
+
+        def one():
+            for f, g in forms.items():
+                ctx.transitions += 1
+                ctx.counters[ck] = ctx.counters.get(ck, 0) + 1
+                got = getattr(mod, name)(g)
+                what = f"{name}({f}) n={n} ploidy={P} loci [fixed-1, fixed-0, one-short, half] x effects [pos, neg, 0]"
+                require(isinstance(got, numpy.ndarray) and got.shape == (4, 3), sig + ":shape",
+                        lambda: f"{what}: returned {type(got).__name__} shape {getattr(got, 'shape', None)}")
+                require(got.dtype.kind == kind or (kind == "i" and got.dtype.kind == "u"), sig + ":dtype",
+                        lambda: f"{what}: dtype {got.dtype}")
+                if kind != "f":
+                    e = numpy.array(E, dtype=_KIND[kind])
+                    require(bool((got == e).all()), sig + ":value", lambda: f"{what}: got {got.tolist()} expected {e.tolist()}")
+                else:
+                    for j in range(4):
+                        for k in range(3):
+                            v, x = float(got[j, k]), E[j][k]
+                            if x == 0 or x == 1:
+                                # the property's flags are defined on exact boundaries: a fixed / absent allele has
+                                # frequency exactly 1 / 0 for every population size
+                                require(v == float(x), sig + ":inexact-boundary",
+                                        lambda: f"{what}: frequency {v!r} at locus {j} trait {k} but the exact value is {x} "
+                                                f"(count {exp[name[:2] + 'count'][j][k]} of {P * n})")
+                            else:
+                                require(0.0 < v < 1.0 and abs(v - float(x)) <= 1e-12 + 1e-9 * float(x), sig + ":value",
+                                        lambda: f"{what}: frequency {v!r} at locus {j} trait {k}, exact value {x}")
+                if f == "ph":
+                    obs.append(got.tobytes())
+        ck = f"calls:{code}.{name}"
+        ok = ctx.guard(one, case=case, sig_prefix=sig + ":")
+        ok_all = ok_all and ok
+    if ok_all:
+        ctx.traces += 1
+    ctx.outcome(hashlib.blake2b(b"|".join(obs), digest_size=8).digest())
+    ctx.nontriv(hashlib.blake2b(repr(("sweep", code, P, n)).encode(), digest_size=8).digest())
+    ctx.count(f"sweep-cases:{code}")
+    if P * n in (49, 98, 103, 107, 196):
+        ctx.flag(f"sweep-copies-{P * n}")
+    if n == sweep_nmax(ctx.tier):
+        ctx.flag("sweep-nmax")
+
+
+# ----------------------------------------------------------------------------
 # rrBLUP part
 class _Capture:
     """Wrap the module-level rrBLUP_ML0 so that the variance components it reports for a fit are observable."""
@@ -1132,6 +1234,8 @@ def run_shard(spec, ctx):
                                       % (b[0], "phased" if b[1] == "ph" else "unphased", b[2], b[3], b[4], b[5], b[6], b[7], b[8], b[9],
                                          ("every %d-th for each genotype" % b[10]) if b[10] > 0 else ("%d per genotype, rotating through all" % -b[10]))
                                       for b in blocks(ctx.tier)]
+        ctx.bounds["size_sweep"] = ("allele statistics: every n = 1..%d x ploidy 1/2/4 x 4 classes x phased/unphased, loci "
+                                    "{fixed-1, fixed-0, one copy short, half} x effects {pos, neg, 0}" % sweep_nmax(ctx.tier))
         ctx.bounds["fit_blocks"] = ["n=%d p=%d Z=%s z_stride=%d y_stride=%d traits=%d" % b for b in fit_blocks(ctx.tier)]
         for code in ("A", "D", "L", "R"):
             cov, ab, ex, un = method_sets(code)
@@ -1159,6 +1263,12 @@ def run_shard(spec, ctx):
                 run_case(ctx, case)
         if gstride > 1:
             ctx.flag(f"covering-set:{kind}{P}x{n}x{m}/stride{gstride}")
+        return
+    if spec[0] == "sweep":
+        _, P, n0, n1 = spec
+        for n in range(n0, n1):
+            for code in ("A", "D", "L", "R"):
+                run_sweep(ctx, dict(part="sweep", cls=code, P=P, n=n, seed=ctx.seed))
         return
     if spec[0] == "fit":
         _, blk, z0, z1 = spec
@@ -1197,6 +1307,10 @@ def finalize(ctx, tier, seed):
     assert ctx.counters.get("perm-instances", 0) > 0 and ctx.counters.get("partition-instances", 0) > 0
     for lab in ("after-u_a-setter", "after-u-setter", "after-u_d-setter", "after-beta-setter", "after-inplace-edit"):
         assert ctx.counters.get("history-steps:" + lab, 0) > 0, lab
+    for code in ("A", "D", "L", "R"):
+        assert ctx.counters.get(f"sweep-cases:{code}", 0) == 3 * sweep_nmax(tier), code
+    for f in ("sweep-copies-49", "sweep-copies-98", "sweep-copies-103", "sweep-copies-107", "sweep-copies-196", "sweep-nmax"):
+        assert f in ctx.flags, f
     assert ctx.counters.get("fit:normal-equation-clause-checked", 0) > 0
     assert ctx.counters.get("fit:normal-equation-clause-not-applicable", 0) > 0
     assert ctx.counters.get("fits:fit", 0) > 0
@@ -1215,7 +1329,9 @@ def finalize(ctx, tier, seed):
 
 
 def replay(case, ctx):
-    if case.get("part") == "fit":
+    if case.get("part") == "sweep":
+        run_sweep(ctx, case)
+    elif case.get("part") == "fit":
         run_fit(ctx, case)
     else:
         run_case(ctx, case)
